@@ -194,7 +194,15 @@ class VLoop(asyncio.SelectorEventLoop):
         self.stop()
         self.run_forever()
 
+    def advance(self, seconds):
+        """Let `seconds` of virtual time pass (timers that become due fire during the following steps)."""
+        self.vtime += float(seconds)
+        for _ in range(3):
+            self.step()
+
     def idle(self):
+        if self._scheduled and self._scheduled[0]._when <= self.vtime:
+            return False  # a timer is due
         return not self._ready and not self.ctl.peek()
 
     def settle(self, budget=STEP_BUDGET):
@@ -237,6 +245,10 @@ class VLoop(asyncio.SelectorEventLoop):
                 if responder is None:
                     continue
                 action = responder(conn, chunk)
+                if isinstance(action, tuple) and action and action[0] == "delay":
+                    # the device takes its time: virtual seconds pass before the reply is sent
+                    self.advance(action[1])
+                    action = action[2]
                 if action is None:
                     conn.send_eof()
                     progressed = True
